@@ -133,6 +133,8 @@ def fam_keys(seed, tier):
     for c in CURVES if tier == "thorough" else ["NIST192p", "NIST256p", "NIST521p", "SECP256k1", "BRAINPOOLP256r1", "SECP112r1"]:
         yield dict(curve=c, seed=rnd.randrange(1 << 30), mode="roundtrip")
         yield dict(curve=c, seed=rnd.randrange(1 << 30), mode="damage")
+    for c in CURVES:        # every curve in every tier: private scalars written WITHOUT their leading zero bytes (as older
+        yield dict(curve=c, seed=rnd.randrange(1 << 30), mode="short-scalars")   # OpenSSL / other libraries emit them)
 
 
 @proof("C19/key-encodings", functions=[(KEYS, "VerifyingKey.from_der"), (KEYS, "VerifyingKey.to_der"),
@@ -160,6 +162,28 @@ def key_encodings(vc):
     for d in scalars:
         sk = K.SigningKey.from_secret_exponent(d, curve)
         vk = sk.verifying_key
+        if vc._get("mode") == "short-scalars":
+            from register_crypto_plugin.ecdsa.util import orderlen
+            width = orderlen(n)              # the width of a private scalar is the byte length of the ORDER
+            minimal = d.to_bytes(max(1, (d.bit_length() + 7) // 8), "big")
+            for octets in {minimal, b"\x00" + minimal if len(minimal) < width else minimal, d.to_bytes(width, "big")}:
+                sec1 = D.encode_sequence(D.encode_integer(1), D.encode_octet_string(octets),
+                                         D.encode_constructed(0, curve.encoded_oid))
+                inner = D.encode_sequence(D.encode_integer(1), D.encode_octet_string(octets))
+                pkcs8 = D.encode_sequence(D.encode_integer(0),
+                                          D.encode_sequence(D.encode_oid(1, 2, 840, 10045, 2, 1), curve.encoded_oid),
+                                          D.encode_octet_string(inner))
+                for what, blob in (("sec1", sec1), ("pkcs8", pkcs8)):
+                    for arm in ("der", "pem"):
+                        vc.tick()
+                        try:
+                            got = K.SigningKey.from_der(blob) if arm == "der" else \
+                                K.SigningKey.from_pem(D.topem(blob, "EC PRIVATE KEY" if what == "sec1" else "PRIVATE KEY"))
+                            if got.privkey.secret_multiplier != d or got.curve.name != curve.name:
+                                bad.append((what, arm, "decoded to another key", len(octets), d))
+                        except Exception as e:
+                            bad.append((what, arm, len(octets), "%s: %s" % (type(e).__name__, e)))
+            continue
         if vc._get("mode") == "roundtrip":
             for enc in ("raw", "uncompressed", "compressed", "hybrid"):
                 vc.tick()
@@ -289,6 +313,25 @@ def point_validation(vc):
     x = vc.int("x", -(1 << 530), 1 << 530)
     y = vc.int("y", -(1 << 530), 1 << 530)
 
+    if vc.symbolic:
+        on = vc.fresh_int("on_curve", 0, 1)
+        on_other = vc.fresh_int("on_the_points_own_curve", 0, 1)
+
+        class OtherCurve:
+            """the curve the POINT OBJECT carries: a different (larger) field with its own membership answer - validation
+            is against the curve of the key's generator, never against this one"""
+            def p(self):
+                return (1 << 521) - 1
+
+            def contains_point(self, px, py):
+                return on_other == 1
+
+            def cofactor(self):
+                return 1
+        other_curve = OtherCurve()
+    else:
+        other_curve = (C.NIST521p if name != "NIST521p" else C.BRAINPOOLP512r1).curve
+
     class Pt:
         def x(self):
             return x
@@ -296,8 +339,10 @@ def point_validation(vc):
         def y(self):
             return y
 
+        def curve(self):
+            return other_curve
+
     if vc.symbolic:
-        on = vc.fresh_int("on_curve", 0, 1)
 
         class Curve:
             """the curve seen through contains_point (C17: the Weierstrass equation mod p), cofactor 1"""
@@ -506,3 +551,160 @@ def from_pem_forwards(vc):
     vc.ground("private.from_pem->from_der", out2 == "SK" and len(calls2) == 1 and got2.get("string") == b"PRIV-DER"
               and got2.get("hashfunc") is HF and got2.get("valid_curve_encodings") is VCE, repr(got2)[:200])
     vc.cover("from_pem")
+
+
+# ---------------------------------------------------------------------------------------
+# the way from bytes to the validating constructor: the coordinates decoded from the encoding reach the range / on-curve
+# test UNCHANGED (not reduced, not re-made on another curve), with the KEY's curve and the caller's validate flag.
+#   VerifyingKey.from_string(s, curve, hf, v, ve)  ==  from_public_point(PointJacobi.from_bytes(curve.curve, s, v, ve), curve, hf, v)
+#   VerifyingKey.from_public_point(P, curve, hf, v)   builds Public_key(curve.generator, P as Jacobian with the same
+#                                                     coordinates, v);  InvalidPointError -> MalformedPointError
+EC = "register_crypto_plugin.ecdsa.ellipticcurve"
+P256 = 0xFFFFFFFF00000001000000000000000000000000FFFFFFFFFFFFFFFFFFFFFFFF
+SMALL_Y_POINTS_P256 = [   # points (x, y) of P-256 with y so small that y + p still fits in 32 bytes
+    (0xD7325D7646CD60D80A92738CEB345F844CFFAF35841022CAB176F692DE8DE1D7, 5),
+    (0x9B21C2DE1DA31D68731DBDAF97D7AB3F979131E28E3DC5B2077D5A7187914A78, 6),
+    (0xB2ED6EACBC9F7DA8564D94B7E4DF51FCCFFA296DC6693E4FD7ACCEAED56AC453, 7),
+]
+
+
+def small_x_points_p256(count=3):
+    """points of P-256 with x so small that x + p still fits in 32 bytes (p = 3 mod 4: square root by exponentiation)"""
+    from spec import ecmath as EM
+    b = 0x5AC635D8AA3A93E7B3EBBD55769886BC651D06B0CC53B0F63BCE3C3E27D2604B
+    out, x = [], 0
+    while len(out) < count:
+        rhs = (x * x * x - 3 * x + b) % P256
+        y = pow(rhs, (P256 + 1) // 4, P256)
+        if y * y % P256 == rhs:
+            out.append((x, y))
+        x += 1
+    return out
+
+
+def fam_from_string(seed, tier):
+    import random
+    rnd = random.Random(seed)
+    for (x, y) in SMALL_Y_POINTS_P256:
+        for (X, Y) in ((x, y), (x, y + P256), (x, P256 - y)):
+            yield dict(X=X, Y=Y, validate=True)
+    for (x, y) in small_x_points_p256():
+        for (X, Y) in ((x, y), (x + P256, y), (x + P256, P256 - y)):
+            yield dict(X=X, Y=Y, validate=True)
+    for _ in range(4):
+        yield dict(X=rnd.randrange(1 << 256), Y=rnd.randrange(1 << 256), validate=True)
+    yield dict(X=0, Y=0, validate=True)
+    yield dict(X=(1 << 256) - 1, Y=(1 << 256) - 1, validate=True)
+
+
+@proof("C19/VerifyingKey.from_string.decoded-point-reaches-validation-unchanged",
+       functions=[(KEYS, "VerifyingKey.from_string")], family=fam_from_string)
+def from_string_handover(vc):
+    import hashlib
+    K = vc.module(KEYS)
+    EL = vc.module(EC)
+    C = vc.module("register_crypto_plugin.ecdsa.curves")
+    ERR = vc.module("register_crypto_plugin.ecdsa.errors")
+    curve = C.NIST256p
+    X = vc.int("X", 0, (1 << 256) - 1)
+    Y = vc.int("Y", 0, (1 << 256) - 1)
+    validate = vc.bool("validate")
+    if not vc.symbolic:
+        from spec import ecmath as EM
+        raw = X.to_bytes(32, "big") + Y.to_bytes(32, "big")
+        out = vc.call(K.VerifyingKey.from_string, raw, curve, hashlib.sha256, True)
+        want = X < P256 and Y < P256 and EM.on_curve((X, Y), curve.curve.a(), curve.curve.b(), P256)
+        vc.prove("accepted<=>coordinates-below-p-and-on-the-curve", out.returned == want, repr(out.exc))
+        vc.prove("refusal-is-MalformedPointError", out.returned or out.raised(ERR.MalformedPointError), repr(out.exc))
+        if out.returned:
+            pt = out.value.pubkey.point
+            vc.prove("key-holds-the-decoded-coordinates", pt.x() == X and pt.y() == Y)
+        return
+    HF, VE = hashlib.sha384, ("uncompressed", "raw")
+    decoded = EL.PointJacobi(curve.curve, X, Y, 1)
+    got_fb, got_fpp = [], []
+
+    class PJ(EL.PointJacobi):
+        @classmethod
+        def from_bytes(cls, crv, data, validate_encoding=True, valid_encodings=None, order=None, generator=False):
+            got_fb.append((crv, data, validate_encoding, valid_encodings))
+            return decoded
+
+    vc.patch(K, "PointJacobi", PJ)
+    vc.patch(K.VerifyingKey, "from_public_point",
+             classmethod(lambda cls, point, crv=None, hashfunc=None, validate_point=True:
+                         (got_fpp.append((point, crv, hashfunc, validate_point)), "VK")[1]))
+    out = vc.call(K.VerifyingKey.from_string, b"POINT-ENCODING", curve, HF, validate, VE)
+    vc.prove("returns-what-from_public_point-made", out.returned and out.value == "VK", repr(out.exc))
+    vc.prove("decoder-gets-curve-encoding-flag-and-allowed-encodings", len(got_fb) == 1 and got_fb[0][0] is curve.curve
+             and got_fb[0][1] == b"POINT-ENCODING" and got_fb[0][2] is validate and got_fb[0][3] is VE, repr(got_fb)[:200])
+    vc.prove("one-hand-over", len(got_fpp) == 1)
+    if len(got_fpp) == 1:
+        pt, crv, hf, v = got_fpp[0]
+        vc.prove("hands-over-the-decoded-x-unchanged", pt.x() == X)
+        vc.prove("hands-over-the-decoded-y-unchanged", pt.y() == Y)
+        vc.prove("hands-over-curve-hash-and-validate-flag", pt.curve() is curve.curve and crv is curve and hf is HF and v is validate)
+    vc.cover("decoded")
+
+
+def fam_fpp(seed, tier):
+    for kind in ("jacobi", "affine"):
+        for validate in (True, False):
+            for bad in (False, True):
+                yield dict(kind=kind, validate=validate, bad=bad)
+
+
+@proof("C19/VerifyingKey.from_public_point.validates-against-the-key's-curve",
+       functions=[(KEYS, "VerifyingKey.from_public_point")], family=fam_fpp)
+def from_public_point_handover(vc):
+    import hashlib
+    K = vc.module(KEYS)
+    EL = vc.module(EC)
+    E = vc.module("register_crypto_plugin.ecdsa.ecdsa")
+    C = vc.module("register_crypto_plugin.ecdsa.curves")
+    ERR = vc.module("register_crypto_plugin.ecdsa.errors")
+    curve, foreign = C.NIST256p, C.BRAINPOOLP256r1
+    kind = vc.choice("kind", ["jacobi", "affine"])
+    validate = vc.bool("validate")
+    bad = vc.bool("bad")
+    if not vc.symbolic:
+        # a genuine point OBJECT of another curve (its coordinates are below p of the key's curve or not - never on it)
+        src = (foreign.generator * 5) if bad else (curve.generator * 5)
+        pt = src if kind == "jacobi" else src.to_affine()
+        out = vc.call(K.VerifyingKey.from_public_point, pt, curve, hashlib.sha256, True)
+        if bad:
+            vc.prove("point-object-of-another-curve-refused", out.raised(ERR.MalformedPointError), repr(out.exc))
+        else:
+            vc.prove("own-point-accepted", out.returned and out.value.pubkey.point.x() == src.x(), repr(out.exc))
+        return
+    X = vc.int("X", 0, (1 << 256) - 1)
+    Y = vc.int("Y", 0, (1 << 256) - 1)
+    if kind == "jacobi":
+        pt = EL.PointJacobi(foreign.curve, X, Y, 1)
+    else:
+        # an affine Point object with ANY coordinates (its constructor asserts membership of its own curve: skipped)
+        pt = EL.Point.__new__(EL.Point)
+        pt._Point__curve, pt._Point__x, pt._Point__y, pt._Point__order = foreign.curve, X, Y, None
+    got = []
+
+    class PK:
+        def __init__(self, generator, point, verify=True):
+            got.append((generator, point, verify))
+            if bad:
+                raise E.InvalidPointError("by contract: out of range / off the curve of the generator")
+
+    vc.patch(E, "Public_key", PK)
+    HF = hashlib.sha384
+    out = vc.call(K.VerifyingKey.from_public_point, pt, curve, HF, validate)
+    vc.prove("one-validation", len(got) == 1)
+    if len(got) == 1:
+        g, q, v = got[0]
+        vc.prove("validated-against-the-generator-of-the-key's-curve", g is curve.generator)
+        vc.prove("validated-point-has-the-given-coordinates", vc.And(q.x() == X, q.y() == Y))
+        vc.prove("validate-flag-handed-over", v is validate)
+    if bad:
+        vc.prove("invalid=>MalformedPointError", out.raised(ERR.MalformedPointError), repr(out.exc))
+    else:
+        vc.prove("valid=>key-on-the-given-curve", out.returned and out.value.curve is curve and out.value.default_hashfunc is HF
+                 and out.value.pubkey is not None, repr(out.exc))
+    vc.cover("validated")
